@@ -132,6 +132,22 @@ pub fn narrow_class(sig: &str, detail: &str, view: Option<&View>) -> String {
         // the null-filling reader
         return "scan-fails-legacy-fragment-lacks-a-schema-field".into();
     }
+    if sig.starts_with("full-scan") && detail.contains("panicked") && detail.contains("PrimitiveArray data should contain a single buffer") && lacks_field(false) {
+        // same root cause as the other stale-append classes (a fragment written with an older schema
+        // lacks a schema field); here the 2.0 decoder asserts while null-filling
+        return "decoder-panics-null-filling-column-absent-from-a-fragment".into();
+    }
+    let dead_file = view
+        .map(|v| {
+            let ids: std::collections::HashSet<i32> = v.schema_fields.iter().map(|f| f.0).collect();
+            v.frags.iter().any(|f| f.files.iter().any(|df| !df.fields.iter().any(|i| ids.contains(i))))
+        })
+        .unwrap_or(false);
+    if sig == "validate-error" && detail.contains("did not have any fields in common with the dataset schema") && dead_file {
+        // a data file all of whose columns were dropped (add_columns writes one file per new column,
+        // drop_columns is metadata only): reads skip it, validate() insists on opening it
+        return "validate-rejects-data-file-whose-columns-were-all-dropped".into();
+    }
     let tombstones = view.map(|v| v.frags.iter().any(|f| f.files.iter().any(|df| df.fields.iter().any(|i| *i < 0)))).unwrap_or(false);
     if sig.ends_with("-error") && sig.starts_with("full-scan") && legacy && tombstones {
         // legacy-format data file whose first field id was tombstoned by an in-place column rewrite:
